@@ -116,7 +116,7 @@ func normRule(r *ARule) {
 // ---- concretisation ---------------------------------------------------------
 
 var litPool = []string{"v1", "books", "a-b.c_d", "größe", "書籍", "x", "shelves", "Zz9", "k_", "n.m"}
-var freePool = []string{"p0", "x~!$", "123abc", "(p)", "a+b,c;d=e@f", "é", "00x", "4294967297", "2147483648", "-2147483649", "99999999999", "&'*", "q", "_-_", "5.5", "ünï"}
+var freePool = []string{".", "..", "...", "p0", "x~!$", "123abc", "(p)", "a+b,c;d=e@f", "é", "00x", "4294967297", "2147483648", "-2147483649", "99999999999", "&'*", "q", "_-_", "5.5", "ünï"}
 var intPool = []string{"7", "1", "-1", "2147483647", "-2147483648", "42", "-40", "1000000"}
 var undocPool = []string{"a|b", "a b", "%7B", "{x}", "a\"b", "<>", "a\\b", "#", "?", "[1]", "^", "`"}
 
